@@ -4,222 +4,251 @@ node a function returns, and the heap view answers exactly like Model/Sx.
 -/
 import Ufw.Model.SxHeap
 import Ufw.Lemmas.Sx
-
 namespace Ufw.Lemmas.SxHeap
 open Ufw Ufw.Model.Sx Ufw.Model.SxHeap
 
-/-- every allocation of a list read is part of the (possibly partial) tree it returns -/
-theorem list_h_allocs (s : List Octet) : ∀ (fuel i : Nat), (list_h s fuel i).allocs = (list_h s fuel i).node.weight := by
-  intro fuel
-  induction fuel with
-  | zero => intro i; simp [list_h, PTree.weight]
-  | succ fuel ih =>
-    intro i
-    simp only [list_h]
-    split
-    · simp [PTree.weight]
-    split
-    · simp [token_h]
-    split
-    · simp [token_h]
-    split
-    · simp [token_h]
-    split
-    · split
-      · exact ih _
-      · simp [token_h]
-    · simp only [PTree.weight]
-      rw [ih]
-      split
-      · rw [ih]; omega
-      · simp only [token_h]; omega
+theorem token_h_allocs (s : List Octet) (i : Nat) : (token_h s i).allocs = (token_h s i).node.weight := rfl
 
-/-- what a list read of Model/Sx never answers, and that success comes with a tree -/
-theorem list_status (s : List Octet) : ∀ (fuel i : Nat),
-    (sx_parse_list s fuel i).status ≠ .foundList ∧
-    ((sx_parse_list s fuel i).status = .success → (sx_parse_list s fuel i).node.isSome = true) := by
-  intro fuel
-  induction fuel with
-  | zero => intro i; simp [sx_parse_list]
-  | succ fuel ih =>
-    intro i
-    simp only [sx_parse_list]
-    split
-    · simp
-    split
-    · rename_i herr
-      simp only [Res.isError, Bool.and_eq_true, bne_iff_ne, ne_eq] at herr
-      exact ⟨herr.2, fun h => absurd h herr.1⟩
-    split
-    · simp
-    split
-    · rename_i hel
-      simp only [Res.isEmptyList, Bool.and_eq_true, beq_iff_eq] at hel
-      exact ⟨by rw [hel.1]; simp, fun _ => by rw [hel.2]; rfl⟩
-    rename_i hnerr hnone hnel
-    split
-    · rename_i herr
-      simp only [Res.isError, Bool.and_eq_true, bne_iff_ne, ne_eq] at herr
-      exact ⟨herr.2, fun h => absurd h herr.1⟩
-    · rename_i hcar
-      have hcdr := ih (if (sx_parse_token s i).status == .foundList then sx_parse_list s fuel (sx_parse_token s i).pos
-        else sx_parse_token s i).pos
-      -- the first element has a tree
-      have hcarnode : (if (sx_parse_token s i).status == .foundList then sx_parse_list s fuel (sx_parse_token s i).pos
-          else sx_parse_token s i).node.isSome = true := by
-        by_cases hf : ((sx_parse_token s i).status == .foundList) = true
-        · simp only [hf, ↓reduceIte] at hcar ⊢
-          have hl := ih (sx_parse_token s i).pos
-          apply hl.2
-          simp only [Res.isError, Bool.and_eq_true, bne_iff_ne, ne_eq, not_and, Decidable.not_not] at hcar
-          by_cases hs : (sx_parse_list s fuel (sx_parse_token s i).pos).status = .success
-          · exact hs
-          · exact absurd (hcar hs) hl.1
-        · simp only [hf, Bool.false_eq_true, ↓reduceIte] at hcar ⊢
-          simp only [Res.isError, Bool.and_eq_true, bne_iff_ne, ne_eq, not_and, Decidable.not_not] at hnerr
-          have hs : (sx_parse_token s i).status = .success := by
-            by_cases hs : (sx_parse_token s i).status = .success
-            · exact hs
-            · have := hnerr hs; simp only [beq_iff_eq] at hf; exact absurd this hf
-          simp only [hs, beq_self_eq_true, true_and] at hnone
-          cases hn : (sx_parse_token s i).node with
-          | none => rw [hn] at hnone; simp at hnone
-          | some t => rfl
-      generalize (if (sx_parse_token s i).status == .foundList then sx_parse_list s fuel (sx_parse_token s i).pos
-          else sx_parse_token s i) = car at *
-      cases hcn : car.node with
-      | none => rw [hcn] at hcarnode; simp at hcarnode
-      | some a =>
-        simp only
-        cases hdn : (sx_parse_list s fuel car.pos).node with
-        | none =>
-          simp only
-          refine ⟨hcdr.1, fun h => ?_⟩
-          have := hcdr.2 h; rw [hdn] at this; simp at this
-        | some d => exact ⟨hcdr.1, fun _ => rfl⟩
+/-- every allocation of a list read is part of the (possibly partial) tree it returns -/
+theorem list_h_allocs (s : List Octet) (fuel i : Nat) : (list_h s fuel i).allocs = (list_h s fuel i).node.weight := by
+  fun_induction list_h s fuel i with
+  | case1 => simp [PTree.weight]
+  | case2 => simp [PTree.weight]
+  | case3 => exact token_h_allocs _ _
+  | case4 => exact token_h_allocs _ _
+  | case5 => exact token_h_allocs _ _
+  | case6 fuel i _ tok _ _ _ car _ ih =>
+    simp only [car]; split
+    · exact ih
+    · exact token_h_allocs _ _
+  | case7 fuel i _ tok _ _ _ car _ cdr ih2 ih1 =>
+    have hc : car.allocs = car.node.weight := by
+      simp only [car]; split
+      · exact ih2
+      · exact token_h_allocs _ _
+    simp only [PTree.weight, hc, cdr, ih1]; omega
+
+theorem tokE (s : List Octet) (i : Nat) : (token_h s i).isError = (sx_parse_token s i).isError := rfl
 
 theorem optTree_null (o : Option Tree) : optTree o = .null ↔ o = none := by
   cases o with
   | none => simp [optTree]
-  | some t => cases t <;> simp [optTree, ofTree]
+  | some t =>
+    cases t with
+    | nil => simp [optTree, ofTree]
+    | sym x =>
+      have h1 : (PTree.sym x == PTree.nil) = false := by rw [beq_eq_false_iff_ne]; simp
+      have h2 : (Tree.sym x == Tree.nil) = false := by rw [beq_eq_false_iff_ne]; simp
+      simp [optTree, ofTree, h1, h2]
+    | int x =>
+      have h1 : (PTree.int x == PTree.nil) = false := by rw [beq_eq_false_iff_ne]; simp
+      have h2 : (Tree.int x == Tree.nil) = false := by rw [beq_eq_false_iff_ne]; simp
+      simp [optTree, ofTree, h1, h2]
+    | cons a d =>
+      have h1 : (PTree.cons (ofTree a) (ofTree d) == PTree.nil) = false := by rw [beq_eq_false_iff_ne]; simp
+      have h2 : (Tree.cons a d == Tree.nil) = false := by rw [beq_eq_false_iff_ne]; simp
+      simp [optTree, ofTree, h1, h2]
 
 theorem optTree_nil (o : Option Tree) : optTree o = .nil ↔ o = some .nil := by
   cases o with
   | none => simp [optTree]
-  | some t => cases t <;> simp [optTree, ofTree]
+  | some t =>
+    cases t with
+    | nil => simp [optTree, ofTree]
+    | sym x =>
+      have h1 : (PTree.sym x == PTree.nil) = false := by rw [beq_eq_false_iff_ne]; simp
+      have h2 : (Tree.sym x == Tree.nil) = false := by rw [beq_eq_false_iff_ne]; simp
+      simp [optTree, ofTree, h1, h2]
+    | int x =>
+      have h1 : (PTree.int x == PTree.nil) = false := by rw [beq_eq_false_iff_ne]; simp
+      have h2 : (Tree.int x == Tree.nil) = false := by rw [beq_eq_false_iff_ne]; simp
+      simp [optTree, ofTree, h1, h2]
+    | cons a d =>
+      have h1 : (PTree.cons (ofTree a) (ofTree d) == PTree.nil) = false := by rw [beq_eq_false_iff_ne]; simp
+      have h2 : (Tree.cons a d == Tree.nil) = false := by rw [beq_eq_false_iff_ne]; simp
+      simp [optTree, ofTree, h1, h2]
 
-/-- the heap view of a list read agrees with Model/Sx: same status, same position, and - unless it is an error,
-    where Model/Sx drops the partial tree - the same tree -/
-theorem list_h_refines (s : List Octet) : ∀ (fuel i : Nat),
-    (list_h s fuel i).status = (sx_parse_list s fuel i).status ∧
-    (list_h s fuel i).pos = (sx_parse_list s fuel i).pos ∧
-    ((sx_parse_list s fuel i).isError = false → (list_h s fuel i).node = optTree (sx_parse_list s fuel i).node) := by
-  intro fuel
-  induction fuel with
-  | zero => intro i; simp [list_h, sx_parse_list, Res.isError]
-  | succ fuel ih =>
-    intro i
-    simp only [list_h, sx_parse_list]
-    by_cases hge : i ≥ s.length
-    · simp [hge, Res.isError]
-    simp only [hge, ↓reduceIte]
-    have hte : (token_h s i).isError = (sx_parse_token s i).isError := by simp [HRes.isError, Res.isError, token_h]
-    rw [hte]
-    by_cases herr : (sx_parse_token s i).isError = true
-    · simp only [herr, ↓reduceIte]
-      refine ⟨by simp [token_h], by simp [token_h], ?_⟩
-      intro h; simp only [Res.isError] at h herr; rw [herr] at h; simp at h
-    simp only [herr, Bool.false_eq_true, ↓reduceIte]
-    have hnone : ((token_h s i).status == .success ∧ (token_h s i).node = .null) ↔
-        ((sx_parse_token s i).status == .success ∧ (sx_parse_token s i).node.isNone = true) := by
-      simp only [token_h, optTree_null, Option.isNone_iff_eq_none]
-    by_cases hn : ((sx_parse_token s i).status == .success ∧ (sx_parse_token s i).node.isNone = true)
-    · simp only [hnone.mpr hn, hn, and_self, ↓reduceIte]
-      refine ⟨rfl, by simp [token_h], ?_⟩
-      intro h; simp [Res.isError] at h
-    simp only [fun h => hn (hnone.mp h), hn, ↓reduceIte]
-    have hel : (token_h s i).isEmptyList = (sx_parse_token s i).isEmptyList := by
-      simp only [HRes.isEmptyList, Res.isEmptyList, token_h]
-      congr 1
-      by_cases h : (sx_parse_token s i).node = some .nil
-      · simp [h, optTree, ofTree]
-      · have : ¬ optTree (sx_parse_token s i).node = .nil := fun hh => h ((optTree_nil _).mp hh)
-        simp [h, this]
-    rw [hel]
-    by_cases he : (sx_parse_token s i).isEmptyList = true
-    · simp only [he, ↓reduceIte]
-      exact ⟨by simp [token_h], by simp [token_h], fun _ => by simp [token_h]⟩
-    simp only [he, Bool.false_eq_true, ↓reduceIte]
-    have hts : (token_h s i).status = (sx_parse_token s i).status := rfl
-    have htp : (token_h s i).pos = (sx_parse_token s i).pos := rfl
-    rw [hts, htp]
-    -- the first element
-    obtain ⟨c1, c2, c3⟩ : (if (sx_parse_token s i).status == .foundList then list_h s fuel (sx_parse_token s i).pos else token_h s i).status =
-        (if (sx_parse_token s i).status == .foundList then sx_parse_list s fuel (sx_parse_token s i).pos else sx_parse_token s i).status ∧
-        (if (sx_parse_token s i).status == .foundList then list_h s fuel (sx_parse_token s i).pos else token_h s i).pos =
-        (if (sx_parse_token s i).status == .foundList then sx_parse_list s fuel (sx_parse_token s i).pos else sx_parse_token s i).pos ∧
-        ((if (sx_parse_token s i).status == .foundList then sx_parse_list s fuel (sx_parse_token s i).pos else sx_parse_token s i).isError = false →
-          (if (sx_parse_token s i).status == .foundList then list_h s fuel (sx_parse_token s i).pos else token_h s i).node =
-          optTree (if (sx_parse_token s i).status == .foundList then sx_parse_list s fuel (sx_parse_token s i).pos else sx_parse_token s i).node) := by
-      by_cases hf : ((sx_parse_token s i).status == .foundList) = true
-      · simp only [hf, ↓reduceIte]; exact ih _
-      · simp only [hf, Bool.false_eq_true, ↓reduceIte]; exact ⟨rfl, rfl, fun _ => rfl⟩
-    -- both first elements are lists or tokens whose tree is present
-    have hcarsome : (if (sx_parse_token s i).status == .foundList then sx_parse_list s fuel (sx_parse_token s i).pos else sx_parse_token s i).isError = false →
-        (if (sx_parse_token s i).status == .foundList then sx_parse_list s fuel (sx_parse_token s i).pos else sx_parse_token s i).node.isSome = true := by
-      intro hcar
-      by_cases hf : ((sx_parse_token s i).status == .foundList) = true
-      · simp only [hf, ↓reduceIte] at hcar ⊢
-        have hl := list_status s fuel (sx_parse_token s i).pos
-        apply hl.2
-        simp only [Res.isError, Bool.and_eq_false_imp, bne_iff_ne, ne_eq] at hcar
-        by_cases hs : (sx_parse_list s fuel (sx_parse_token s i).pos).status = .success
-        · exact hs
-        · have := hcar hs; simp only [bne_eq_false_iff_eq] at this; exact absurd this hl.1
-      · simp only [hf, Bool.false_eq_true, ↓reduceIte] at hcar ⊢
-        simp only [Res.isError, Bool.and_eq_true, bne_iff_ne, ne_eq, not_and, Decidable.not_not] at herr
-        have hs : (sx_parse_token s i).status = .success := by
-          by_cases hs : (sx_parse_token s i).status = .success
-          · exact hs
-          · have := herr hs; simp only [beq_iff_eq] at hf; exact absurd this hf
-        simp only [hs, beq_self_eq_true, true_and] at hn
-        cases hnn : (sx_parse_token s i).node with
-        | none => rw [hnn] at hn; simp at hn
-        | some t => rfl
-    generalize (if (sx_parse_token s i).status == .foundList then list_h s fuel (sx_parse_token s i).pos else token_h s i) = carh at *
-    generalize (if (sx_parse_token s i).status == .foundList then sx_parse_list s fuel (sx_parse_token s i).pos else sx_parse_token s i) = car at *
-    have hce : carh.isError = car.isError := by simp [HRes.isError, Res.isError, c1]
-    rw [hce]
-    by_cases hcerr : car.isError = true
-    · simp only [hcerr, ↓reduceIte]
-      refine ⟨c1, c2, ?_⟩
-      intro h; simp only [Res.isError] at h hcerr; rw [hcerr] at h; simp at h
-    simp only [hcerr, Bool.false_eq_true, ↓reduceIte]
-    rw [c2]
-    obtain ⟨d1, d2, d3⟩ := ih car.pos
-    have hcs := hcarsome (by simpa using hcerr)
+theorem tokN (s : List Octet) (i : Nat) : ((token_h s i).status == .success ∧ (token_h s i).node = .null) ↔
+    ((sx_parse_token s i).status == .success ∧ (sx_parse_token s i).node.isNone = true) := by
+  have hs : (token_h s i).status = (sx_parse_token s i).status := rfl
+  have hn : (token_h s i).node = optTree (sx_parse_token s i).node := rfl
+  rw [hs, hn, optTree_null, Option.isNone_iff_eq_none]
+
+theorem tokL (s : List Octet) (i : Nat) : (token_h s i).isEmptyList = (sx_parse_token s i).isEmptyList := by
+  have hs : (token_h s i).status = (sx_parse_token s i).status := rfl
+  have hn : (token_h s i).node = optTree (sx_parse_token s i).node := rfl
+  simp only [HRes.isEmptyList, Res.isEmptyList, hs, hn]
+  cases (sx_parse_token s i).node with
+  | none => simp [optTree]
+  | some t =>
+    cases t with
+    | nil => simp [optTree, ofTree]
+    | sym x =>
+      have h1 : (PTree.sym x == PTree.nil) = false := by rw [beq_eq_false_iff_ne]; simp
+      have h2 : (Tree.sym x == Tree.nil) = false := by rw [beq_eq_false_iff_ne]; simp
+      simp [optTree, ofTree, h1, h2]
+    | int x =>
+      have h1 : (PTree.int x == PTree.nil) = false := by rw [beq_eq_false_iff_ne]; simp
+      have h2 : (Tree.int x == Tree.nil) = false := by rw [beq_eq_false_iff_ne]; simp
+      simp [optTree, ofTree, h1, h2]
+    | cons a d =>
+      have h1 : (PTree.cons (ofTree a) (ofTree d) == PTree.nil) = false := by rw [beq_eq_false_iff_ne]; simp
+      have h2 : (Tree.cons a d == Tree.nil) = false := by rw [beq_eq_false_iff_ne]; simp
+      simp [optTree, ofTree, h1, h2]
+
+
+theorem nonError_status (r : Res) (h : ¬ r.isError = true) : r.status = .success ∨ r.status = .foundList := by
+  simp only [Res.isError, Bool.and_eq_true, bne_iff_ne, ne_eq, not_and, Decidable.not_not] at h
+  by_cases hs : r.status = .success
+  · exact Or.inl hs
+  · exact Or.inr (h hs)
+
+theorem error_status (r : Res) (h : r.isError = true) : r.status ≠ .success ∧ r.status ≠ .foundList := by
+  simpa [Res.isError] using h
+
+/-- the first element of a list: a token that carries a tree, or a nested list that was read without error -/
+theorem car_some (tok lst : Res) (h1 : ¬ tok.isError = true)
+    (h2 : ¬ ((tok.status == .success) = true ∧ tok.node.isNone = true))
+    (hl : lst.status ≠ .foundList ∧ (lst.status = .success → lst.node.isSome = true))
+    (hc : ¬ (if (tok.status == .foundList) = true then lst else tok).isError = true) :
+    (if (tok.status == .foundList) = true then lst else tok).node.isSome = true := by
+  by_cases hf : (tok.status == .foundList) = true
+  · simp only [hf, ↓reduceIte] at hc ⊢
+    rcases nonError_status lst hc with h | h
+    · exact hl.2 h
+    · exact absurd h hl.1
+  · simp only [hf, Bool.false_eq_true, ↓reduceIte]
+    rcases nonError_status tok h1 with h | h
+    · cases hn : tok.node with
+      | none => exact absurd ⟨by simp [h], by simp [hn]⟩ h2
+      | some t => rfl
+    · simp [h] at hf
+
+theorem list_status (s : List Octet) (fuel i : Nat) :
+    (sx_parse_list s fuel i).status ≠ .foundList ∧
+    ((sx_parse_list s fuel i).status = .success → (sx_parse_list s fuel i).node.isSome = true) := by
+  fun_induction sx_parse_list s fuel i with
+  | case1 => simp
+  | case2 => simp
+  | case3 _ _ _ tok herr =>
+    obtain ⟨e1, e2⟩ := error_status tok herr
+    exact ⟨e2, fun h => absurd h e1⟩
+  | case4 => simp
+  | case5 _ _ _ tok _ _ hel =>
+    simp only [Res.isEmptyList, Bool.and_eq_true, beq_iff_eq] at hel
+    exact ⟨by rw [hel.1]; simp, fun _ => by rw [hel.2]; rfl⟩
+  | case6 _ _ _ tok _ _ _ car hcar _ =>
+    obtain ⟨e1, e2⟩ := error_status car hcar
+    exact ⟨e2, fun h => absurd h e1⟩
+  | case7 _ _ _ tok _ _ _ car _ cdr a d _ _ _ ih1 => exact ⟨ih1.1, fun _ => rfl⟩
+  | case8 _ _ _ tok h1 h2 _ car hcar cdr hx ih2 ih1 =>
+    refine ⟨ih1.1, fun hs => ?_⟩
+    exfalso
+    have hc := car_some tok _ h1 h2 ih2 hcar
+    have hd := ih1.2 hs
     cases hcn : car.node with
+    | none => simp only [car] at hcn; rw [hcn] at hc; simp at hc
+    | some a =>
+      cases hdn : cdr.node with
+      | none => simp only [cdr] at hdn; rw [hdn] at hd; simp at hd
+      | some d => exact hx a d hcn hdn
+
+
+
+/-- the relation between what the heap view and Model/Sx answer -/
+def Rel (h : HRes) (r : Res) : Prop :=
+  h.status = r.status ∧ h.pos = r.pos ∧ (r.isError = false → h.node = optTree r.node)
+
+theorem tok_rel (s : List Octet) (i : Nat) : Rel (token_h s i) (sx_parse_token s i) := ⟨rfl, rfl, fun _ => rfl⟩
+
+theorem list_h_refines (s : List Octet) (fuel i : Nat) : Rel (list_h s fuel i) (sx_parse_list s fuel i) := by
+  fun_induction list_h s fuel i with
+  | case1 => simp [Rel, sx_parse_list, Res.isError]
+  | case2 _ _ hge => simp [Rel, sx_parse_list, hge, Res.isError]
+  | case3 _ i hge tok herr =>
+    have herr' : (sx_parse_token s i).isError = true := herr
+    simp only [sx_parse_list, hge, ↓reduceIte, herr']
+    refine ⟨rfl, rfl, fun h => ?_⟩
+    simp only [Res.isError] at h herr'; rw [herr'] at h; simp at h
+  | case4 _ i hge tok herr hnone =>
+    have herr' : ¬ (sx_parse_token s i).isError = true := herr
+    have hn' := (tokN s i).mp hnone
+    simp only [sx_parse_list, hge, ↓reduceIte, herr', hn', and_self, Bool.false_eq_true]
+    exact ⟨rfl, rfl, fun h => by simp [Res.isError] at h⟩
+  | case5 _ i hge tok herr hnone hel =>
+    have herr' : ¬ (sx_parse_token s i).isError = true := herr
+    have hn' : ¬ (((sx_parse_token s i).status == .success) = true ∧ (sx_parse_token s i).node.isNone = true) :=
+      fun h => hnone ((tokN s i).mpr h)
+    have hel' : (sx_parse_token s i).isEmptyList = true := by rw [← tokL]; exact hel
+    simp only [sx_parse_list, hge, ↓reduceIte, herr', hn', hel', Bool.false_eq_true]
+    exact tok_rel s i
+  | case6 fuel i hge tok herr hnone hel car hcar ih =>
+    have herr' : ¬ (sx_parse_token s i).isError = true := herr
+    have hn' : ¬ (((sx_parse_token s i).status == .success) = true ∧ (sx_parse_token s i).node.isNone = true) :=
+      fun h => hnone ((tokN s i).mpr h)
+    have hel' : ¬ (sx_parse_token s i).isEmptyList = true := by rw [← tokL]; exact hel
+    -- the first element on both sides
+    have hcr : Rel car (if ((sx_parse_token s i).status == .foundList) = true then sx_parse_list s fuel (sx_parse_token s i).pos
+        else sx_parse_token s i) := by
+      simp only [car]
+      by_cases hf : ((sx_parse_token s i).status == .foundList) = true
+      · have hf' : (tok.status == .foundList) = true := hf
+        simp only [hf, hf', ↓reduceIte]; exact ih
+      · have hf' : ¬ (tok.status == .foundList) = true := hf
+        simp only [hf, hf', Bool.false_eq_true, ↓reduceIte]; exact tok_rel s i
+    have hce : (if ((sx_parse_token s i).status == .foundList) = true then sx_parse_list s fuel (sx_parse_token s i).pos
+        else sx_parse_token s i).isError = true := by
+      have : car.isError = true := hcar
+      simp only [HRes.isError, hcr.1] at this
+      exact this
+    simp only [sx_parse_list, hge, ↓reduceIte, herr', hn', hel', hce, Bool.false_eq_true]
+    refine ⟨hcr.1, hcr.2.1, fun h => ?_⟩
+    simp only [Res.isError] at h hce; rw [hce] at h; simp at h
+  | case7 fuel i hge tok herr hnone hel car hcar cdr ih2 ih1 =>
+    have herr' : ¬ (sx_parse_token s i).isError = true := herr
+    have hn' : ¬ (((sx_parse_token s i).status == .success) = true ∧ (sx_parse_token s i).node.isNone = true) :=
+      fun h => hnone ((tokN s i).mpr h)
+    have hel' : ¬ (sx_parse_token s i).isEmptyList = true := by rw [← tokL]; exact hel
+    have hcr : Rel car (if ((sx_parse_token s i).status == .foundList) = true then sx_parse_list s fuel (sx_parse_token s i).pos
+        else sx_parse_token s i) := by
+      simp only [car]
+      by_cases hf : ((sx_parse_token s i).status == .foundList) = true
+      · have hf' : (tok.status == .foundList) = true := hf
+        simp only [hf, hf', ↓reduceIte]; exact ih2
+      · have hf' : ¬ (tok.status == .foundList) = true := hf
+        simp only [hf, hf', Bool.false_eq_true, ↓reduceIte]; exact tok_rel s i
+    have hce : ¬ (if ((sx_parse_token s i).status == .foundList) = true then sx_parse_list s fuel (sx_parse_token s i).pos
+        else sx_parse_token s i).isError = true := by
+      have : ¬ car.isError = true := hcar
+      simp only [HRes.isError, hcr.1] at this
+      exact this
+    have hcs := car_some (sx_parse_token s i) (sx_parse_list s fuel (sx_parse_token s i).pos) herr' hn'
+      (list_status s fuel _) hce
+    simp only [sx_parse_list, hge, ↓reduceIte, herr', hn', hel', hce, Bool.false_eq_true]
+    generalize (if ((sx_parse_token s i).status == .foundList) = true then sx_parse_list s fuel (sx_parse_token s i).pos
+        else sx_parse_token s i) = carM at *
+    have hpos : car.pos = carM.pos := hcr.2.1
+    have ih1' : Rel cdr (sx_parse_list s fuel carM.pos) := by simp only [cdr, hpos]; rw [hpos] at ih1; exact ih1
+    cases hcn : carM.node with
     | none => rw [hcn] at hcs; simp at hcs
     | some a =>
-      have hca : carh.node = ofTree a := by
-        have := c3 (by simpa using hcerr); rw [hcn] at this; exact this
-      cases hdn : (sx_parse_list s fuel car.pos).node with
+      have hca : car.node = ofTree a := by
+        have := hcr.2.2 (by simpa using hce); rw [hcn] at this; exact this
+      cases hdn : (sx_parse_list s fuel carM.pos).node with
       | none =>
         simp only
-        refine ⟨d1, d2, ?_⟩
-        intro hne
+        refine ⟨ih1'.1, ih1'.2.1, fun hne => ?_⟩
         exfalso
-        have hl := list_status s fuel car.pos
-        simp only [Res.isError, Bool.and_eq_false_imp, bne_iff_ne, ne_eq] at hne
-        by_cases hs : (sx_parse_list s fuel car.pos).status = .success
-        · have := hl.2 hs; rw [hdn] at this; simp at this
-        · have := hne hs; simp only [bne_eq_false_iff_eq] at this; exact absurd this hl.1
+        have hl := list_status s fuel carM.pos
+        rcases nonError_status _ (by simpa using hne) with h | h
+        · have := hl.2 h; rw [hdn] at this; simp at this
+        · exact hl.1 h
       | some d =>
         simp only
-        refine ⟨d1, d2, ?_⟩
-        intro hne
-        have hdd : (list_h s fuel car.pos).node = ofTree d := by
-          have := d3 (by simpa [Res.isError] using hne); rw [hdn] at this; exact this
+        refine ⟨ih1'.1, ih1'.2.1, fun hne => ?_⟩
+        have hdd : cdr.node = ofTree d := by
+          have := ih1'.2.2 (by simpa [Res.isError] using hne); rw [hdn] at this; exact this
         rw [hca, hdd]; rfl
+
 
 end Ufw.Lemmas.SxHeap
